@@ -19,8 +19,9 @@ import (
 // S (SetAsOldest, observe), R (Reset, observe). Oracle: a plain list.
 
 type c19Case struct {
-	Cap int    `json:"cap"`
-	Ops string `json:"ops"`
+	Cap  int    `json:"cap"`
+	Ops  string `json:"ops"`
+	Lazy bool   `json:"observe_only_on_O,omitempty"`
 }
 
 type ringModel struct {
@@ -31,6 +32,7 @@ type ringModel struct {
 }
 
 type c19Sys struct {
+	lazy    bool // observers are called only by the explicit op 'O' (an implementation may cache between calls)
 	fl      *motion.FrameLoop
 	m       ringModel
 	nextTag int
@@ -128,16 +130,27 @@ func (s *c19Sys) observe() string {
 	return ""
 }
 
+func (s *c19Sys) obsUnlessLazy() string {
+	if s.lazy {
+		return ""
+	}
+	return s.observe()
+}
+
 func (s *c19Sys) apply(op byte) string {
 	m := &s.m
 	switch op {
+	case 'O':
+		if e := s.observe(); e != "" {
+			return "observe: " + e
+		}
 	case 'W':
 		f := s.fl.Current()
 		f.Status.FrameCount = s.nextTag
 		f.Pix[0][0] = uint16(s.nextTag)
 		m.curTag = s.nextTag
 		s.nextTag++
-		if e := s.observe(); e != "" {
+		if e := s.obsUnlessLazy(); e != "" {
 			return "after fill: " + e
 		}
 		ret := s.fl.Move()
@@ -149,7 +162,7 @@ func (s *c19Sys) apply(op byte) string {
 		if ret != s.fl.Current() {
 			return "Move() did not return the new current frame"
 		}
-		if e := s.observe(); e != "" {
+		if e := s.obsUnlessLazy(); e != "" {
 			return "after move: " + e
 		}
 	case 'S':
@@ -158,7 +171,7 @@ func (s *c19Sys) apply(op byte) string {
 		if ret != s.fl.Current() {
 			return "SetAsOldest() did not return the current frame"
 		}
-		if e := s.observe(); e != "" {
+		if e := s.obsUnlessLazy(); e != "" {
 			return "after set-as-oldest: " + e
 		}
 	case 'R':
@@ -166,7 +179,7 @@ func (s *c19Sys) apply(op byte) string {
 		m.moved = nil
 		m.mark = 0
 		m.curTag = -1
-		if e := s.observe(); e != "" {
+		if e := s.obsUnlessLazy(); e != "" {
 			return "after reset: " + e
 		}
 	}
@@ -204,10 +217,12 @@ func runC19Case(c c19Case) (msg string, step int, obs []int, key string) {
 		}
 	}()
 	s := newC19(c.Cap)
-	if e := s.observe(); e != "" {
+	s.lazy = c.Lazy
+	if e := s.obsUnlessLazy(); e != "" {
 		return "fresh loop: " + e, 0, s.obs, ""
 	}
 	for i := 0; i < len(c.Ops); i++ {
+		step = i + 1 // kept current for the panic path
 		if e := s.apply(c.Ops[i]); e != "" {
 			return fmt.Sprintf("op %d (%c): %s", i+1, c.Ops[i], e), i + 1, s.obs, ""
 		}
@@ -232,7 +247,7 @@ func c19Run(r *ev.Run) {
 	if r.Thorough() {
 		maxCap, depthFor = 8, func(cap int) int { return imin(2*cap+4, 15) }
 	}
-	r.Rule = "tree: every string over {W=fill+move, S=set-as-oldest, R=reset} to the stated depth per capacity, observers (GetHistory, Oldest, Current, CopyRecent) checked against a list model after every step; fixpoint: explicit-state BFS over the same alphabet on canonical keys (reflection walk of the real FrameLoop, tags relative to newest). Non-trivial = distinct canonical ring state reached."
+	r.Rule = "tree: every string over {W=fill+move, S=set-as-oldest, R=reset} to the stated depth per capacity, observers (GetHistory, Oldest, Current, CopyRecent) checked against a list model after every step, and a second pass over {W,S,R,O} (depth <=10) in which the observers are called only at O (so caching between calls is visible); fixpoint: explicit-state BFS over the same alphabet on canonical keys (reflection walk of the real FrameLoop, tags relative to newest). Non-trivial = distinct canonical ring state reached."
 	r.Assumptions = []string{"the list model in c19.go is the meaning of the statement", "fixpoint key only: ring slots older than 2*cap+2 tags cannot be observed (not assumed by the tree mode)"}
 	// ---- fixpoint BFS per capacity
 	type bfsRes struct {
@@ -240,11 +255,16 @@ func c19Run(r *ev.Run) {
 		trans  int
 		conv   bool
 	}
-	closed := make([]bfsRes, maxCap+1)
-	r.Parallel(maxCap, func(w *ev.Worker, i int) {
-		capacity := i + 1
+	closed := make([]bfsRes, 2*maxCap+2)
+	r.Parallel(2*maxCap, func(w *ev.Worker, i int) {
+		capacity := i/2 + 1
+		lazy := i%2 == 1
+		alphabet := "WSR"
+		if lazy {
+			alphabet = "WSRO"
+		}
 		seen := map[string]bool{}
-		_, _, _, k0 := runC19Case(c19Case{capacity, ""})
+		_, _, _, k0 := runC19Case(c19Case{capacity, "", lazy})
 		seen[k0] = true
 		frontier := []string{""}
 		trans := 0
@@ -252,15 +272,15 @@ func c19Run(r *ev.Run) {
 		for len(frontier) > 0 {
 			hist := frontier[0]
 			frontier = frontier[1:]
-			for _, op := range "WSR" {
-				c := c19Case{capacity, hist + string(op)}
+			for _, op := range alphabet {
+				c := c19Case{capacity, hist + string(op), lazy}
 				msg, _, obs, k := runC19Case(c)
 				trans++
 				w.Evaluations++
 				w.Transitions++
 				w.Outcome(ev.Hash(obs))
 				if msg != "" {
-					w.Violate("ring-history", fmt.Sprintf("capacity %d, ops %s: %s", capacity, c.Ops, msg), c, len(c.Ops))
+					w.Violate("ring-history", fmt.Sprintf("capacity %d, ops %s (observe only on O: %v): %s", capacity, c.Ops, lazy, msg), c, len(c.Ops))
 					continue
 				}
 				if !seen[k] {
@@ -278,13 +298,16 @@ func c19Run(r *ev.Run) {
 				break
 			}
 		}
-		closed[capacity] = bfsRes{seen, trans, conv}
+		closed[2*capacity+b2i(lazy)] = bfsRes{seen, trans, conv}
 	})
 	fix := map[string]interface{}{}
 	for c := 1; c <= maxCap; c++ {
-		fix[fmt.Sprint(c)] = map[string]interface{}{"states": len(closed[c].states), "transitions": closed[c].trans, "converged": closed[c].conv}
-		if !closed[c].conv {
-			r.MarkCapped()
+		for _, lz := range []bool{false, true} {
+			b := closed[2*c+b2i(lz)]
+			fix[fmt.Sprintf("%d/observe-on-O=%v", c, lz)] = map[string]interface{}{"states": len(b.states), "transitions": b.trans, "converged": b.conv}
+			if !b.conv {
+				r.MarkCapped()
+			}
 		}
 	}
 	r.Extra["fixpoint_per_capacity"] = fix
@@ -292,13 +315,19 @@ func c19Run(r *ev.Run) {
 	type job struct {
 		cap    int
 		prefix string
+		lazy   bool
 	}
 	var jobs []job
 	depths := map[string]int{}
 	for c := 1; c <= maxCap; c++ {
 		depths[fmt.Sprint(c)] = depthFor(c)
 		for _, p := range allStrings("WSR", 3) {
-			jobs = append(jobs, job{c, p})
+			jobs = append(jobs, job{c, p, false})
+		}
+		// second pass: observers are called only where the string says so (an implementation that
+		// caches results between calls is invisible to a harness that observes after every step)
+		for _, p := range allStrings("WSRO", 3) {
+			jobs = append(jobs, job{c, p, true})
 		}
 	}
 	r.Bounds["tree_depth_per_capacity"] = depths
@@ -307,8 +336,12 @@ func c19Run(r *ev.Run) {
 	r.Parallel(len(jobs), func(w *ev.Worker, i int) {
 		j := jobs[i]
 		var tn treeNodes
-		enumStrings("WSR", depthFor(j.cap), []byte(j.prefix), func(s []byte) {
-			c := c19Case{j.cap, string(s)}
+		alphabet, depth := "WSR", depthFor(j.cap)
+		if j.lazy {
+			alphabet, depth = "WSRO", imin(depthFor(j.cap), 10)
+		}
+		enumStrings(alphabet, depth, []byte(j.prefix), func(s []byte) {
+			c := c19Case{j.cap, string(s), j.lazy}
 			msg, step, obs, k := runC19Case(c)
 			w.Evaluations++
 			w.Transitions += int64(step)
@@ -319,7 +352,7 @@ func c19Run(r *ev.Run) {
 				w.Violate("ring-history", fmt.Sprintf("capacity %d, ops %s: %s", j.cap, c.Ops, msg), c, step)
 				return
 			}
-			if closed[j.cap].conv && !closed[j.cap].states[k] {
+			if b := closed[2*j.cap+b2i(j.lazy)]; b.conv && !b.states[k] {
 				w.Extra["tree_keys_outside_fixpoint"]++
 				keyMiss++
 			}
